@@ -27,6 +27,11 @@
 //   rx <leaderRoles> <peersE> <target> <requests>
 //        the first lines of relocateShare's error path: survivingPeersExcept then reassignByRole
 //        -> "sv=<indices> sh=.. lead=.. gr=.. fail=.."
+//   dv <actors> <grains>               crash-recovery snapshot builder: real deriveRelocationSetFromRegistry over
+//        these registry records of the departed node (grain flag y = system-named grain) -> "a=<ids> g=<ids>"
+//   ps <actors>                        graceful-shutdown snapshot builder: a real started system spawns these actors
+//        (n = WithRelocationDisabled, y = system actor under a reserved name), real preShutdown
+//        -> "a=<ids> foreign=<entries that are none of the case's actors>"
 //   ll <survivors> <shareLens> <role>  -> index or -1
 //   el <roles> <role>                  -> true|false
 //   gate <actor>                       -> skip|proceed|err  (dispatch rule of enqueueRelocation)
@@ -34,6 +39,7 @@ package main
 
 import (
 	"fmt"
+	"sort"
 	"strconv"
 	"strings"
 
@@ -197,8 +203,12 @@ func (r *reg) mkGrains(s string) ([]*internalpb.Grain, bool) {
 		if len(f) > 1 {
 			flags = f[1]
 		}
+		gname := "g" + strconv.Itoa(id)
+		if strings.Contains(flags, "y") {
+			gname = actor.VerifSystemNamePrefix() + "G" + strconv.Itoa(id)
+		}
 		g := &internalpb.Grain{
-			GrainId:           &internalpb.GrainId{Kind: "verif.Grain", Name: "g" + strconv.Itoa(id), Value: "verif.Grain/g" + strconv.Itoa(id)},
+			GrainId:           &internalpb.GrainId{Kind: "verif.Grain", Name: gname, Value: "verif.Grain/" + gname},
 			Host:              departedHost,
 			Port:              departedPort,
 			DisableRelocation: strings.Contains(flags, "d"),
@@ -260,6 +270,22 @@ func (r *reg) gshares(l [][]*internalpb.Grain) string {
 		s[i] = r.gids(sh)
 	}
 	return strings.Join(s, "/")
+}
+
+func sortedIDList(s string) string {
+	if s == "-" {
+		return s
+	}
+	parts := strings.Split(s, ",")
+	sort.Slice(parts, func(i, j int) bool {
+		a, e1 := strconv.Atoi(parts[i])
+		b, e2 := strconv.Atoi(parts[j])
+		if e1 != nil || e2 != nil {
+			return parts[i] < parts[j]
+		}
+		return a < b
+	})
+	return strings.Join(parts, ",")
 }
 
 func parseInts(s string) ([]int, bool) {
@@ -527,6 +553,80 @@ func handle(line string) string {
 			fs = strings.Join(fl, ",")
 		}
 		return fmt.Sprintf("sv=%s sh=%s lead=%s gr=%s fail=%s", peerIndices(peers, surv), r.ashares(shares), r.aids(lead), r.gids(grains), fs)
+	case "dv":
+		if len(f) != 3 {
+			return "bad-case"
+		}
+		r := newReg()
+		as, ok1 := r.mkActors(f[1])
+		gs, ok2 := r.mkGrains(f[2])
+		if !ok1 || !ok2 {
+			return "bad-case"
+		}
+		st, ok := actor.VerifDeriveRelocationSet(departedHost, 9500, departedPort, as, gs)
+		if !ok {
+			return "derive-failed"
+		}
+		var ka []*internalpb.Actor
+		for _, a := range st.GetActors() {
+			ka = append(ka, a)
+		}
+		var kg []*internalpb.Grain
+		for _, g := range st.GetGrains() {
+			kg = append(kg, g)
+		}
+		return "a=" + sortedIDList(r.aids(ka)) + " g=" + sortedIDList(r.gids(kg))
+	case "ps":
+		if len(f) != 2 {
+			return "bad-case"
+		}
+		var specs []actor.VerifLiveActorSpec
+		names := map[string]int{}
+		if f[1] != "-" {
+			for _, tok := range strings.Split(f[1], ",") {
+				p := strings.Split(tok, ".")
+				if len(p) < 2 {
+					return "bad-case"
+				}
+				id, e1 := strconv.Atoi(p[0])
+				role, e2 := strconv.Atoi(p[1])
+				if e1 != nil || e2 != nil {
+					return "bad-case"
+				}
+				flags := ""
+				if len(p) > 2 {
+					flags = p[2]
+				}
+				name := "a" + strconv.Itoa(id)
+				if strings.Contains(flags, "y") {
+					name = actor.VerifSystemNamePrefix() + "Verif" + strconv.Itoa(id)
+				}
+				names[name] = id
+				specs = append(specs, actor.VerifLiveActorSpec{Name: name, Role: roleName(role), Relocatable: !strings.Contains(flags, "n"), System: strings.Contains(flags, "y")})
+			}
+		}
+		snap, err := actor.VerifPreShutdownSnapshot(specs)
+		if err != nil {
+			return "rig-error " + vlib.Canon(err.Error())
+		}
+		var ids []string
+		foreign := 0
+		for name, rec := range snap {
+			id, ok := names[name]
+			if !ok {
+				foreign++
+				continue
+			}
+			if !rec.GetRelocatable() {
+				return "non-relocatable-record-in-snapshot"
+			}
+			ids = append(ids, strconv.Itoa(id))
+		}
+		l := "-"
+		if len(ids) > 0 {
+			l = strings.Join(ids, ",")
+		}
+		return "a=" + sortedIDList(l) + " foreign=" + strconv.Itoa(foreign)
 	case "ll":
 		if len(f) != 4 {
 			return "bad-case"
